@@ -23,10 +23,12 @@ import (
 	"strings"
 	"time"
 
+	"github.com/markusressel/fan2go/internal"
 	"github.com/markusressel/fan2go/internal/configuration"
 	"github.com/markusressel/fan2go/internal/curves"
 	"github.com/markusressel/fan2go/internal/sensors"
 	"github.com/markusressel/fan2go/internal/verifhook"
+	"github.com/prometheus/client_golang/prometheus"
 	"github.com/spf13/viper"
 )
 
@@ -310,16 +312,46 @@ func cfgRun(a kv) string {
 	}
 	defer os.RemoveAll(dir)
 
+	// the sensors: every configured sensor becomes a FILE sensor over a file of this case (no hwmon chips, no commands
+	// here) and is created, read once, seeded and registered by the REAL initializeSensors, as at daemon start-up
 	type sens struct {
-		s    *sensors.FileSensor
+		s    sensors.Sensor
 		path string
 	}
 	var ss []sens
+	var fileCfgs []configuration.SensorConfig
 	for j, sc := range cfg.Sensors {
 		p := filepath.Join(dir, "sensor"+strconv.Itoa(j))
-		s := &sensors.FileSensor{Config: configuration.SensorConfig{ID: sc.ID, File: &configuration.FileSensorConfig{Path: p}}}
-		sensors.RegisterSensor(s)
-		ss = append(ss, sens{s, p})
+		if err := os.WriteFile(p, []byte("30000\n"), 0o644); err != nil {
+			panic(err)
+		}
+		fileCfgs = append(fileCfgs, configuration.SensorConfig{ID: sc.ID, File: &configuration.FileSensorConfig{Path: p}})
+		ss = append(ss, sens{nil, p})
+	}
+	if res := func() (res string) {
+		savedSensors := configuration.CurrentConfig.Sensors
+		configuration.CurrentConfig.Sensors = fileCfgs
+		savedReg := prometheus.DefaultRegisterer
+		prometheus.DefaultRegisterer = prometheus.NewRegistry()
+		defer func() {
+			configuration.CurrentConfig.Sensors = savedSensors
+			prometheus.DefaultRegisterer = savedReg
+			if r := recover(); r != nil {
+				res = "run=panic:" + panicClass(r) + " at=sensors out=-"
+			}
+		}()
+		if err := internal.VerifInitializeSensors(nil); err != nil {
+			return "run=err:sensors at=- out=-"
+		}
+		return ""
+	}(); res != "" {
+		return res
+	}
+	for j := range ss {
+		// what the registry holds for this id NOW (an object left over from an earlier case does not count)
+		if s, ok := sensors.GetSensor(fileCfgs[j].ID); ok && s.GetConfig().File != nil && s.GetConfig().File.Path == ss[j].path {
+			ss[j].s = s
+		}
 	}
 	var cs []curves.SpeedCurve
 	for _, cc := range cfg.Curves {
@@ -340,7 +372,9 @@ func cfgRun(a kv) string {
 			if err := os.WriteFile(s.path, []byte(strconv.Itoa(x)+"\n"), 0o644); err != nil {
 				panic(err)
 			}
-			s.s.SetMovingAvg(float64(x))
+			if s.s != nil {
+				s.s.SetMovingAvg(float64(x))
+			}
 		}
 		for i, c := range cs {
 			type res struct {
